@@ -48,3 +48,43 @@ package provider
 //@ props C08
 //@ nilsafe
 //@ ensures a == result_of(<-n.sink, 0) && ok == result_of(<-n.sink, 1)
+
+// ---------------------------------------------------------------- construction and defaults
+
+//@ func NewAmmoQueue
+//@ props C08 C03
+//@ requires conf.AmmoQueueSize >= 0
+//@ ensures [queue-of-the-configured-size] fresh(result) && cap(result.OutQueue) == conf.AmmoQueueSize && !closed(result.OutQueue) && sent(result.OutQueue) == 0
+
+//@ func DefaultAmmoQueueConfig
+//@ props C17 C08
+//@ ensures [default-queue] result.AmmoQueueSize == 8192
+
+//@ func DefaultDecodeProviderConfig
+//@ props C17 C08
+//@ ensures [unbounded-by-default] result.Limit == 0 && result.Passes == 0 && result.Queue == result_of(DefaultAmmoQueueConfig, 0)
+
+//@ func NewDecodeProvider
+//@ props C08
+//@ requires conf.Queue.AmmoQueueSize >= 0
+//@ ensures [configured] fresh(result) && result.conf == conf
+//@ at call NewAmmoQueue assert [queue-config] arg(conf) == conf0.Queue
+
+//@ func NewNumConf
+//@ props C08
+//@ at call NewNum assert arg(limit) == conf.Limit
+
+//@ func NewNum
+//@ props C08
+//@ ensures typeis(result, *num) && result.(*num).limit == limit && result.(*num).i == 0 && cap(result.(*num).sink) == 0 && !closed(result.(*num).sink)
+
+//@ struct AmmoQueueConfig
+//@ props C17 C08
+//@ tag AmmoQueueSize validate min=1
+//@ tag AmmoQueueSize config ammo-queue-size
+
+//@ struct DecodeProviderConfig
+//@ props C17 C08
+//@ tag Source validate required
+//@ tag Limit validate min=0
+//@ tag Passes validate min=0
